@@ -1293,3 +1293,260 @@ Proof.
   { apply (dhcp_tinv_run_gen hw calls []); auto. apply dhcp_tinv_init. }
   destruct (dhcp_dispatch_safe _ mtu now xid emit Ht Hn Hm) as [s' [res [E _]]]. rewrite E. discriminate.
 Qed.
+
+(* ------------------------------------------------------------------------------------------------ *)
+(** * non-vacuity: a concrete history  DISCOVER -> OFFER -> REQUEST -> ACK -> renew -> rebind -> expiry *)
+
+Fixpoint dhcp_rets (hw : Z) (s : dhcp_socket) (calls : list dhcp_call) : list (option dhcp_ret) :=
+  match calls with
+  | [] => []
+  | c :: r => match dhcp_call_step hw s c with
+              | Ok (s', ret) => Some ret :: dhcp_rets hw s' r
+              | _ => [None]
+              end
+  end.
+
+(* (kind, a, b): 1/3 = DISCOVER/REQUEST sent (xid, destination); 0 = dispatch sent nothing; 2 = emit refused;
+   10 = Configured (address, prefix); 11 = Deconfigured; 12 = no event; 20 = unit; 99 = panic *)
+Definition dhcp_ret_summary (r : option dhcp_ret) : Z * Z * Z :=
+  match r with
+  | Some (RDispatch (DrSent f)) =>
+      (match tx_message_type f with MtDiscover => 1 | _ => 3 end, tx_transaction_id f, tx_dst_addr f)
+  | Some (RDispatch DrNone) => (0, 0, 0)
+  | Some (RDispatch (DrErr _)) => (2, 0, 0)
+  | Some (REvent (Some (EvConfigured c _))) => (10, cf_address c, cf_prefix_len c)
+  | Some (REvent (Some EvDeconfigured)) => (11, 0, 0)
+  | Some (REvent None) => (12, 0, 0)
+  | Some RUnit => (20, 0, 0)
+  | None => (99, 0, 0)
+  end.
+
+Definition ex_srv : Z := 167772161.      (* 10.0.0.1 *)
+Definition ex_ip : Z := 167772202.       (* 10.0.0.42 *)
+Definition ex_offer : dhcp_repr :=
+  mkRepr MtOffer 77 1 ex_ip (Some ex_srv) (Some 4294967040) None (Some 10) None None None.
+Definition ex_ack : dhcp_repr :=
+  mkRepr MtAck 77 1 ex_ip (Some ex_srv) (Some 4294967040) (Some ex_srv) (Some 10) None None (Some [16843009; 0]).
+Definition ex_calls : list dhcp_call :=
+  [ CDispatch 1500 0 77 true;                          (* DISCOVER xid 77 *)
+    CProcess 1000 ex_srv 67 68 (Some ex_offer);
+    CDispatch 1500 1000 78 true;                       (* REQUEST xid 77 *)
+    CProcess 2000 ex_srv 67 68 (Some ex_ack);          (* lease 10 s: T1 = 5 s, T2 = 8.75 s *)
+    CPoll;                                             (* Configured 10.0.0.42/24 *)
+    CDispatch 1500 5001999 79 true;                    (* 1 us before T1: nothing *)
+    CDispatch 1500 5002000 79 true;                    (* renew, unicast to the server *)
+    CDispatch 1500 8752000 80 true;                    (* rebind, broadcast *)
+    CDispatch 1500 10001999 81 true;                   (* 1 us before expiry: nothing *)
+    CDispatch 1500 10002000 81 true;                   (* expiry: DISCOVER in the same dispatch *)
+    CPoll ].                                           (* Deconfigured *)
+
+Lemma c18_example :
+  Forall call_typed ex_calls /\ Forall call_sane ex_calls /\ ports_ok 1 [] ex_calls /\
+  map dhcp_ret_summary (dhcp_rets 1 dhcp_new ex_calls) =
+    [ (1, 77, ip_BROADCAST); (20, 0, 0); (3, 77, ip_BROADCAST); (20, 0, 0); (10, ex_ip, 24);
+      (0, 0, 0); (3, 79, ex_srv); (3, 80, ip_BROADCAST); (0, 0, 0); (1, 81, ip_BROADCAST); (11, 0, 0) ] /\
+  m_ack (snd (dhcp_run 1 ex_calls)) = Some (2000, ex_ack, 10000000) /\
+  m_last_req (snd (dhcp_run 1 ex_calls)) = Some 80.
+Proof.
+  assert (Hu : forall x, 0 <= x < 4294967296 -> u32_ok x) by (intros; exact H).
+  splits.
+  - unfold ex_calls. repeat constructor; cbn; unfold ou32_ok, u32_ok; try lia.
+  - unfold ex_calls, call_sane, time_ok, dh_T62. repeat constructor; cbn; unfold ou32_ok, u32_ok; try lia;
+      vm_compute; congruence.
+  - vm_compute. tauto.
+  - vm_compute. reflexivity.
+  - vm_compute. reflexivity.
+  - vm_compute. reflexivity.
+Qed.
+
+(* outside the bounds of [retry_cfg_sane] the shift DOES overflow: initial_request_timeout = 0 and
+   request_retries = 200 (both legal values of their types), a server that offers but never acknowledges:
+   the 129th REQUEST computes `0 << 64` *)
+Definition ex_overflow_calls : list dhcp_call :=
+  [ CSetRetryConfig (mkRetry 10000000 0 200 60000000 dh_DURATION_MAX);
+    CDispatch 1500 0 77 true;
+    CProcess 0 ex_srv 67 68 (Some ex_offer) ] ++ repeat (CDispatch 1500 0 78 true) 128.
+
+Lemma c18_shift_overflow_reachable :
+  Forall call_typed ex_overflow_calls /\
+  dhcp_call_step 1 (fst (dhcp_run 1 ex_overflow_calls)) (CDispatch 1500 0 78 true) = Panic.
+Proof.
+  split.
+  - unfold ex_overflow_calls. apply Forall_app. split.
+    + repeat constructor; cbn; unfold retry_cfg_typed, u64_ok, ou32_ok, u32_ok, dh_DURATION_MAX; cbn; try lia.
+    + apply Forall_forall. intros x Hx. apply repeat_spec in Hx. subst. exact I.
+  - vm_compute. reflexivity.
+Qed.
+
+(* ------------------------------------------------------------------------------------------------ *)
+(** * the interface-level clause: Interface::poll at or after expiry, unless the socket is neighbor-silenced *)
+
+Definition dhcp_dropped (s : dhcp_socket) : Prop :=
+  dhcp_unconfigured s /\ ds_config_changed s = true.
+
+Lemma dhcp_dropped_poll : forall s, dhcp_dropped s -> snd (dhcp_poll s) = Some EvDeconfigured.
+Proof.
+  intros s [Hu Hc]. unfold dhcp_poll, dhcp_unconfigured in *. rewrite Hc. cbn.
+  destruct (ds_state s); try contradiction; reflexivity.
+Qed.
+
+Lemma dhcp_dispatch_discovering_dropped : forall ms now xid emit s0 ra s' res,
+  ds_config_changed s0 = true ->
+  dhcp_dispatch_discovering ms now xid emit s0 ra = Ok (s', res) ->
+  dhcp_unconfigured s0 -> dhcp_dropped s'.
+Proof.
+  intros ms now xid emit s0 ra s' res Hc H Hu. unfold dhcp_dispatch_discovering in H.
+  destruct (now <? ra); [inversion H; subst; split; auto|].
+  match type of H with context [emit ?f] => destruct (emit f) end.
+  - inv_bind H. inversion H; subst. split; [exact I|exact Hc].
+  - inversion H; subst. split; auto.
+Qed.
+
+Lemma dhcp_reset_dropped : forall s, ds_config_changed s = true \/ ~ dhcp_unconfigured s ->
+  ds_config_changed (dhcp_reset s) = true /\ dhcp_unconfigured (dhcp_reset s).
+Proof.
+  intros s H. unfold dhcp_reset, dhcp_unconfigured in *. destruct (ds_state s); cbn; intuition.
+Qed.
+
+(* once dropped, no dispatch brings the lease back *)
+Lemma dhcp_dispatch_dropped : forall mtu now xid emit s s' res,
+  dhcp_dropped s -> dhcp_dispatch mtu now xid emit s = Ok (s', res) -> dhcp_dropped s'.
+Proof.
+  intros mtu now xid emit s s' res [Hu Hc] H. unfold dhcp_dispatch in H. inv_bind H.
+  unfold dhcp_unconfigured in Hu.
+  destruct (ds_state s) as [ra0 | ra0 retry server rip | ] eqn:Est; [| |contradiction].
+  - eapply dhcp_dispatch_discovering_dropped; eauto. unfold dhcp_unconfigured. rewrite Est. exact I.
+  - destruct (now <? ra0); [inversion H; subst; split; auto; unfold dhcp_unconfigured; rewrite Est; exact I|].
+    destruct (rc_request_retries (ds_retry_config s) <=? retry).
+    { destruct (dhcp_reset_dropped s (or_introl Hc)) as [R1 R2].
+      eapply dhcp_dispatch_discovering_dropped; eauto. }
+    match type of H with context [emit ?f] => destruct (emit f) end.
+    + inv_bind H. inv_bind H. destruct (65535 <? retry + 1); [discriminate|]. inversion H; subst.
+      split; [exact I|exact Hc].
+    + inversion H; subst. split; auto. unfold dhcp_unconfigured. rewrite Est. exact I.
+Qed.
+
+Lemma dhcp_dispatch_expired_dropped : forall mtu now xid emit s s' res cfg ra rb rbg e,
+  ds_state s = Renewing cfg ra rb rbg e -> e <= now ->
+  dhcp_dispatch mtu now xid emit s = Ok (s', res) -> dhcp_dropped s'.
+Proof.
+  intros mtu now xid emit s s' res cfg ra rb rbg e Hst He H.
+  unfold dhcp_dispatch in H. inv_bind H. rewrite Hst in H. destruct (e <=? now) eqn:E; [|lia].
+  destruct (dhcp_reset_dropped s) as [R1 R2].
+  { right. unfold dhcp_unconfigured. rewrite Hst. auto. }
+  eapply dhcp_dispatch_discovering_dropped; eauto.
+Qed.
+
+Lemma dhif_socket_egress_dropped : forall xid_of mtu now i i' obs again,
+  dhcp_dropped (if_sock i) -> dhif_socket_egress xid_of mtu now i = Ok (i', obs, again) ->
+  dhcp_dropped (if_sock i').
+Proof.
+  intros xid_of mtu now i i' obs again Hd H. unfold dhif_socket_egress in H.
+  destruct (dhif_egress_permitted i now) as [i1 p] eqn:Ep.
+  assert (Hs : if_sock i1 = if_sock i).
+  { unfold dhif_egress_permitted in Ep. destruct (if_meta i) as [[nb su]|]; [|inversion Ep; reflexivity].
+    destruct (dhif_has_neighbor i nb now); [inversion Ep; reflexivity|].
+    destruct (su <=? now); inversion Ep; reflexivity. }
+  destruct (negb p); [inversion H; subst; rewrite Hs; auto|].
+  inv_bind H. destruct v as [s' r]. rewrite Hs in Hv.
+  apply dhcp_dispatch_dropped in Hv; auto.
+  destruct r as [|f|f].
+  - inversion H; subst. exact Hv.
+  - inversion H; subst. exact Hv.
+  - destruct (dhif_emit_outcome_of i1 now f); inversion H; subst; exact Hv.
+Qed.
+
+Lemma dhif_egress_loop_dropped : forall fuel xid_of mtu now i acc i' obs,
+  dhcp_dropped (if_sock i) -> dhif_egress_loop fuel xid_of mtu now i acc = Ok (i', obs) ->
+  dhcp_dropped (if_sock i').
+Proof.
+  induction fuel as [|fuel IH]; intros xid_of mtu now i acc i' obs Hd H; cbn [dhif_egress_loop] in H.
+  - inversion H; subst. auto.
+  - inv_bind H. destruct v as [[i1 o1] again].
+    apply dhif_socket_egress_dropped in Hv; auto.
+    destruct again; [eapply IH; eauto|inversion H; subst; auto].
+Qed.
+
+(* "silenced" = socket_meta::Meta::egress_permitted answers false at this instant *)
+Definition dhif_silenced (i : dhif) (now : Z) : Prop := snd (dhif_egress_permitted i now) = false.
+
+Theorem c18_iface_expiry_deconfigures_unless_silenced : forall xid_of hw mtu apply now i cfg ra rb rbg e i' obs,
+  ds_state (if_sock i) = Renewing cfg ra rb rbg e -> e <= now ->
+  if_rxq i = [] ->                               (* no frame is waiting (an ACK could legitimately renew the lease) *)
+  ~ dhif_silenced i now ->                        (* known finding d14b-expiry-while-neighbor-silenced excluded *)
+  dhif_poll xid_of hw mtu apply now i = (i', obs) -> obs <> [ObPanic] ->
+  In (ObEvent (Some EvDeconfigured)) obs.
+Proof.
+  intros xid_of hw mtu apply now i cfg ra rb rbg e i' obs Hst He Hq Hsil H Hnp.
+  unfold dhif_poll in H. rewrite Hq in H. cbn [dhif_ingress_all obind] in H.
+  assert (Hfuel : exists n, dhif_EGRESS_FUEL = S n).
+  { destruct dhif_EGRESS_FUEL eqn:E; eauto. exfalso.
+    assert (Z.of_nat dhif_EGRESS_FUEL = 70000) by (unfold dhif_EGRESS_FUEL; lia). rewrite E in H0. cbn in H0. lia. }
+  destruct Hfuel as [n Hn]. rewrite Hn in H. cbn [dhif_egress_loop] in H.
+  set (i0 := dhif_with_rxq i []) in *.
+  assert (Hst0 : ds_state (if_sock i0) = Renewing cfg ra rb rbg e) by exact Hst.
+  assert (Hsil0 : snd (dhif_egress_permitted i0 now) = true).
+  { unfold dhif_silenced in Hsil. destruct (snd (dhif_egress_permitted i now)) eqn:E; [|contradiction].
+    clear - E. unfold dhif_egress_permitted in *. subst i0. cbn.
+    destruct (if_meta i) as [[nb su]|]; auto.
+    unfold dhif_has_neighbor, dhif_route, dhif_in_same_network, dhif_nc_lookup in *. cbn in *.
+    destruct (match if_cidr i with Some (addr, p) => ip_cidr_contains addr p nb | None => false end || ip_is_broadcast nb).
+    - destruct (match dhif_assoc (if_ncache i) nb with
+                | Some expires_at => if now <? expires_at then NcFound else if now <? if_nc_silent_until i then NcRateLimited else NcNotFound
+                | None => if now <? if_nc_silent_until i then NcRateLimited else NcNotFound end); auto;
+        destruct (su <=? now); auto.
+    - destruct (if_router i) as [r|].
+      + destruct (match dhif_assoc (if_ncache i) r with
+                  | Some expires_at => if now <? expires_at then NcFound else if now <? if_nc_silent_until i then NcRateLimited else NcNotFound
+                  | None => if now <? if_nc_silent_until i then NcRateLimited else NcNotFound end); auto;
+          destruct (su <=? now); auto.
+      + destruct (su <=? now); auto. }
+  destruct (dhif_socket_egress xid_of mtu now i0) as [[[i1 o1] again]| |] eqn:Eg; cbn [obind] in H;
+    try (inversion H; subst; exfalso; apply Hnp; reflexivity).
+  assert (Hd1 : dhcp_dropped (if_sock i1)).
+  { unfold dhif_socket_egress in Eg. destruct (dhif_egress_permitted i0 now) as [ip p] eqn:Ep. cbn in Hsil0. subst p.
+    cbn [negb] in Eg.
+    assert (Hs : if_sock ip = if_sock i0).
+    { unfold dhif_egress_permitted in Ep. destruct (if_meta i0) as [[nb su]|]; [|inversion Ep; reflexivity].
+      destruct (dhif_has_neighbor i0 nb now); [inversion Ep; reflexivity|].
+      destruct (su <=? now); inversion Ep; reflexivity. }
+    inv_bind Eg. destruct v as [s' r]. rewrite Hs in Hv.
+    eapply dhcp_dispatch_expired_dropped in Hv; eauto.
+    destruct r as [|f|f].
+    - inversion Eg; subst. exact Hv.
+    - inversion Eg; subst. exact Hv.
+    - destruct (dhif_emit_outcome_of ip now f); inversion Eg; subst; exact Hv. }
+  assert (Hfin : forall i2 o2, (if again then dhif_egress_loop n xid_of mtu now i1 ([] ++ o1) else Ok (i1, [] ++ o1)) = Ok (i2, o2) ->
+                 dhcp_dropped (if_sock i2)).
+  { intros i2 o2 E2. destruct again; [eapply dhif_egress_loop_dropped; eauto|inversion E2; subst; auto]. }
+  destruct (if again then dhif_egress_loop n xid_of mtu now i1 ([] ++ o1) else Ok (i1, [] ++ o1)) as [[i2 o2]| |] eqn:E2;
+    try (inversion H; subst; exfalso; apply Hnp; reflexivity).
+  specialize (Hfin i2 o2 eq_refl). apply dhcp_dropped_poll in Hfin.
+  destruct (dhcp_poll (if_sock i2)) as [s3 ev] eqn:Ep. cbn in Hfin. subst ev.
+  inversion H; subst. apply in_or_app. right. left. reflexivity.
+Qed.
+
+(* ... and the excluded class is not empty: the run of corpus/C18/dhcp-d14b-expiry-while-silenced.case on the model *)
+Definition ex_d14b_offer : dhif_frame :=
+  FrDhcp true true true ex_srv 67 68
+    (Some (mkRepr MtOffer 1000 1 ex_ip (Some ex_srv) (Some 4294967040) None (Some 10) (Some 9) None None)).
+Definition ex_d14b_ack : dhif_frame :=
+  FrDhcp true true true ex_srv 67 68
+    (Some (mkRepr MtAck 1000 1 ex_ip (Some ex_srv) (Some 4294967040) None (Some 10) (Some 9) None None)).
+Definition ex_xid_of (n : Z) : Z := 1000 + n.
+Definition ex_d14b_state : dhif :=
+  let p := fun t i => fst (dhif_poll ex_xid_of 1 1500 true t i) in
+  p 9500000 (p 2000 (dhif_enqueue (p 1000 (dhif_enqueue (p 0 (dhif_new dhcp_new)) ex_d14b_offer)) ex_d14b_ack)).
+
+Lemma c18_iface_expiry_refuted_when_silenced :
+  (exists cfg ra rb rbg, ds_state (if_sock ex_d14b_state) = Renewing cfg ra rb rbg 10002000) /\
+  if_rxq ex_d14b_state = [] /\
+  dhif_silenced ex_d14b_state 10002000 /\
+  snd (dhif_poll ex_xid_of 1 1500 true 10002000 ex_d14b_state) = [ObEvent None; ObPollAt 10500000].
+Proof.
+  splits.
+  - vm_compute. eexists _, _, _, _. reflexivity.
+  - vm_compute. reflexivity.
+  - vm_compute. reflexivity.
+  - vm_compute. reflexivity.
+Qed.
